@@ -29,6 +29,9 @@ from typing import Any
 _real_io_open = io.open
 _real_builtins_open = builtins.open
 _REAL: dict[str, Any] = {}
+for _n in ("fsync", "fdatasync", "fchmod", "chown", "lchown", "fchown", "sendfile", "copy_file_range", "posix_fallocate", "ftruncate", "mkfifo", "removedirs", "makedirs"):
+    if hasattr(os, _n):
+        _REAL[_n] = getattr(os, _n)
 for _n in (
     "open", "close", "read", "write", "fdopen", "replace", "rename", "link", "symlink", "unlink", "remove", "rmdir",
     "mkdir", "truncate", "chmod", "utime", "stat", "lstat", "scandir", "listdir", "readlink", "fsync", "ftruncate",
@@ -41,7 +44,7 @@ class SimCrash(BaseException):
     """The simulated process died at this operation."""
 
 
-MUTATING = {"open-w", "write", "close-w", "mkdir", "replace", "unlink", "rmdir", "truncate", "chmod", "utime", "link", "symlink", "os-open-w", "os-write", "spawn"}
+MUTATING = {"fsync", "open-w", "write", "close-w", "mkdir", "replace", "unlink", "rmdir", "truncate", "chmod", "utime", "link", "symlink", "os-open-w", "os-write", "spawn"}
 
 ERRNOS = {
     "open-r": ["EACCES", "EMFILE", "ENOENT", "EIO"],
@@ -59,6 +62,9 @@ ERRNOS = {
     "scandir": ["EACCES", "EIO"],
     "stdout.write": ["EPIPE", "ENOSPC"],
     "spawn": ["ENOMEM", "EAGAIN"],
+    "fsync": ["EIO", "ENOSPC"],
+    "chmod": ["EPERM", "EACCES"],
+    "truncate": ["EIO", "ENOSPC"],
     "stdin.read": ["EIO"],
 }
 
@@ -229,6 +235,47 @@ class Interposer:
         os.lstat = path_op("lstat", "stat")
         os.readlink = path_op("readlink", "stat")
         os.access = path_op("access", "stat")
+        for nm in ("chown", "lchown"):
+            if nm in _REAL:
+                setattr(os, nm, path_op(nm, "chmod"))
+
+        def fd_op(real_name: str, opname: str) -> Any:
+            real = _REAL[real_name]
+
+            def f(fd: Any, *a: Any, **kw: Any) -> Any:
+                if not ip.active or not isinstance(fd, int):
+                    return real(fd, *a, **kw)
+                o = ip.begin(opname, [ip.fds.get(fd, "<fd>")], via="os." + real_name)
+                r = real(fd, *a, **kw)
+                ip.end(o)
+                return r
+
+            f.__name__ = real_name
+            return f
+
+        ip._fd_patched = []
+        for nm, opn in (("fsync", "fsync"), ("fdatasync", "fsync"), ("fchmod", "chmod"), ("fchown", "chmod"), ("ftruncate", "truncate"), ("posix_fallocate", "truncate")):
+            if nm in _REAL:
+                setattr(os, nm, fd_op(nm, opn))
+                ip._fd_patched.append(nm)
+
+        def data_mover(real_name: str) -> Any:
+            real = _REAL[real_name]
+
+            def f(*a: Any, **kw: Any) -> Any:
+                if not ip.active:
+                    return real(*a, **kw)
+                o = ip.begin("os-write", ["<fd>"], via="os." + real_name)
+                r = real(*a, **kw)
+                ip.end(o)
+                return r
+
+            return f
+
+        for nm in ("sendfile", "copy_file_range"):
+            if nm in _REAL:
+                setattr(os, nm, data_mover(nm))
+                ip._fd_patched.append(nm)
 
         def scandir(path: Any = ".") -> Any:
             p = ip.norm(path) if ip.active else None
@@ -365,6 +412,9 @@ class Interposer:
         builtins.open = _real_builtins_open  # type: ignore[assignment]
         for nm, fn in getattr(self, "_id_saved", {}).items():
             setattr(os, nm, fn)
+        for nm in getattr(self, "_fd_patched", []) + ["chown", "lchown"]:
+            if nm in _REAL:
+                setattr(os, nm, _REAL[nm])
         try:
             import subprocess as _sp
 
@@ -809,6 +859,17 @@ def run_process(ip: Interposer, fn: Any, stdin_bytes: bytes = b"", cwd: str | No
         _REAL["chdir"](cwd)
     ip.std_sinks = (out_sink, err_sink)
     ip.std_source = stdin.buffer.raw
+    # what a real interpreter does after main() returns belongs to the simulated process too:
+    # non-daemon threads are joined and atexit handlers run (a writer finishing its work there
+    # must meet the same faults); handlers registered before this point are not the process'
+    import atexit
+    import threading as _thr
+
+    try:
+        atexit._clear()
+    except Exception:  # noqa: BLE001
+        pass
+    threads_before = set(_thr.enumerate())
     ip.install()
     sys.stdin, sys.stdout, sys.stderr = stdin, stdout, stderr
     try:
@@ -823,6 +884,17 @@ def run_process(ip: Interposer, fn: Any, stdin_bytes: bytes = b"", cwd: str | No
         except BaseException as e:  # noqa: BLE001 - an uncaught exception ends a real process with status 1
             res.exit = 1
             res.exc = type(e).__name__ + ": " + str(e)[:200]
+        if not ip.dead:
+            try:
+                for t in _thr.enumerate():
+                    if t not in threads_before and not t.daemon and t is not _thr.current_thread():
+                        t.join(timeout=20)
+                atexit._run_exitfuncs()
+            except SimCrash:
+                res.crashed = True
+                res.exit = "crash"
+            except BaseException:  # noqa: BLE001
+                pass
         # interpreter shutdown: flush std streams (a dead process flushes nothing)
         if not ip.dead:
             try:
